@@ -31,34 +31,37 @@ def stateLive (s : State V) : List (Id × V) :=
 section
 variable (m : Metric V S)
 
-/-! ### the greedy descent never leaves the live vertices -/
+/-! ### the greedy descent stays inside any neighbour-closed set -/
 
-theorem greedyPass_live (s : State V) (q : V) :
-    ∀ (nbs : List Id) (acc acc' : Id × S × Bool), Live s acc.1 →
-      greedyPass m s q nbs acc = .ok acc' → Live s acc'.1 := by
+theorem greedyPass_closed (s : State V) (q : V) (P : Id → Prop) :
+    ∀ (nbs : List Id) (acc acc' : Id × S × Bool),
+      (∀ nb ∈ nbs, isDeleted s nb = false → s.nodes.contains nb = true → P nb) → P acc.1 →
+      greedyPass m s q nbs acc = .ok acc' → P acc'.1 := by
   intro nbs
   induction nbs with
   | nil =>
-    intro acc acc' hl h
+    intro acc acc' _ hl h
     simp only [greedyPass, Except.ok.injEq] at h; subst h; exact hl
   | cons nb rest ih =>
-    intro acc acc' hl h
+    intro acc acc' hnb hl h
     obtain ⟨curr, cd, ch⟩ := acc
+    have hrest := fun x hx => hnb x (List.mem_cons_of_mem _ hx)
     simp only [greedyPass] at h
     split at h
-    · exact ih _ _ hl h
+    · exact ih _ _ hrest hl h
     · next hdel =>
       split at h
       · cases h
       · next n hn =>
         split at h
-        · refine ih _ _ ?_ h
-          exact ⟨IdMap.contains_iff.2 ⟨n, node!_eq hn⟩, by simpa using hdel⟩
-        · exact ih _ _ hl h
+        · refine ih _ _ hrest ?_ h
+          exact hnb nb (by simp) (by simpa using hdel) (IdMap.contains_iff.2 ⟨n, node!_eq hn⟩)
+        · exact ih _ _ hrest hl h
 
-theorem greedyLayer_live (s : State V) (q : V) (lc : Nat) :
-    ∀ (fuel : Nat) (acc acc' : Id × S), Live s acc.1 →
-      greedyLayer m s q lc fuel acc = .ok acc' → Live s acc'.1 := by
+theorem greedyLayer_closed (s : State V) (q : V) (lc : Nat) (P : Id → Prop)
+    (hcl : ∀ u, P u → ∀ w ∈ nbrsAt s lc u, isDeleted s w = false → s.nodes.contains w = true → P w) :
+    ∀ (fuel : Nat) (acc acc' : Id × S), P acc.1 →
+      greedyLayer m s q lc fuel acc = .ok acc' → P acc'.1 := by
   intro fuel
   induction fuel with
   | zero => intro acc acc' _ h; simp [greedyLayer] at h
@@ -68,19 +71,26 @@ theorem greedyLayer_live (s : State V) (q : V) (lc : Nat) :
     simp only [greedyLayer] at h
     split at h
     · cases h
-    · split at h
+    · next n hn =>
+      split at h
       · simp only [Except.ok.injEq] at h; subst h; exact hl
-      · split at h
+      · next nbs he =>
+        have hnbs : ∀ nb ∈ nbs, isDeleted s nb = false → s.nodes.contains nb = true → P nb := by
+          intro nb hnb
+          refine hcl curr hl nb ?_
+          simp [nbrsAt, node!_eq hn, he, hnb]
+        split at h
         · cases h
         · next c' d' hp =>
-          exact ih _ _ (greedyPass_live m s q _ _ _ hl hp) h
+          exact ih _ _ (greedyPass_closed m s q P _ _ _ hnbs hl hp) h
         · next c' d' hp =>
           simp only [Except.ok.injEq] at h; subst h
-          exact greedyPass_live m s q _ _ _ hl hp
+          exact greedyPass_closed m s q P _ _ _ hnbs hl hp
 
-theorem greedyDescend_live (s : State V) (q : V) :
-    ∀ (layers : List Nat) (acc acc' : Id × S), Live s acc.1 →
-      greedyDescend m s q layers acc = .ok acc' → Live s acc'.1 := by
+theorem greedyDescend_closed (s : State V) (q : V) (P : Id → Prop)
+    (hcl : ∀ u, P u → ∀ l, ∀ w ∈ nbrsAt s l u, isDeleted s w = false → s.nodes.contains w = true → P w) :
+    ∀ (layers : List Nat) (acc acc' : Id × S), P acc.1 →
+      greedyDescend m s q layers acc = .ok acc' → P acc'.1 := by
   intro layers
   induction layers with
   | nil => intro acc acc' hl h; simp only [greedyDescend, Except.ok.injEq] at h; subst h; exact hl
@@ -89,86 +99,20 @@ theorem greedyDescend_live (s : State V) (q : V) :
     simp only [greedyDescend] at h
     split at h
     · cases h
-    · next a hg => exact ih _ _ (greedyLayer_live m s q lc _ _ _ hl hg) h
+    · next a hg =>
+      exact ih _ _ (greedyLayer_closed m s q lc P (fun u hu w hw => hcl u hu lc w hw) _ _ _ hl hg) h
 
-/-! ### the result heap never becomes empty once seeded -/
+
+/-- the greedy descent ends on its start vertex or on a live vertex -/
+theorem greedyDescend_start_or_live (s : State V) (q : V) (layers : List Nat) (acc acc' : Id × S)
+    (h : greedyDescend m s q layers acc = .ok acc') : acc'.1 = acc.1 ∨ Live s acc'.1 := by
+  refine greedyDescend_closed m s q (fun i => i = acc.1 ∨ Live s i) ?_ layers acc acc' (Or.inl rfl) h
+  intro u _ l w _ hwd hwr
+  exact Or.inr ⟨hwr, hwd⟩
 
 theorem insDesc_ne_nil (lt : S → S → Bool) (c : Hit S) (l : List (Hit S)) : insDesc lt c l ≠ [] := by
   cases l <;> simp only [insDesc] <;> try split
   all_goals simp
-
-theorem scanNbrs_rs_ne (s : State V) (q : V) (ef : Nat) :
-    ∀ (nbs : List Id) (cs rs : List (Hit S)) (vis : IdMap Unit) (cs' rs' : List (Hit S)) (vis' : IdMap Unit),
-      rs ≠ [] → scanNbrs m s q ef nbs (cs, rs, vis) = .ok (cs', rs', vis') → rs' ≠ [] := by
-  intro nbs
-  induction nbs with
-  | nil =>
-    intro cs rs vis cs' rs' vis' hne h
-    simp only [scanNbrs, Except.ok.injEq, Prod.mk.injEq] at h
-    obtain ⟨_, rfl, _⟩ := h; exact hne
-  | cons nb rest ih =>
-    intro cs rs vis cs' rs' vis' hne h
-    simp only [scanNbrs] at h
-    split at h
-    · exact ih _ _ _ _ _ _ hne h
-    · split at h
-      · exact ih _ _ _ _ _ _ hne h
-      · split at h
-        · cases h
-        · split at h
-          · cases h
-          · exact ih _ _ _ _ _ _ hne h
-          · refine ih _ _ _ _ _ _ ?_ h
-            split
-            · -- eviction from a heap with at least two elements
-              have hlen := length_insDesc m.sc.lt ⟨nb, m.dist q ‹Node V›.vec⟩ rs
-              intro hnil
-              have h0 := congrArg List.length hnil
-              simp only [List.length_tail, List.length_nil] at h0
-              have : rs.length ≠ 0 := fun h => hne (List.eq_nil_of_length_eq_zero h)
-              omega
-            · exact insDesc_ne_nil _ _ _
-
-theorem searchLoop_ne (s : State V) (q : V) (ef layer : Nat) :
-    ∀ (fuel : Nat) (cs rs : List (Hit S)) (vis : IdMap Unit) (res : List (Hit S)),
-      rs ≠ [] → searchLoop m s q ef layer fuel cs rs vis = .ok res → res ≠ [] := by
-  intro fuel
-  induction fuel with
-  | zero =>
-    intro cs rs vis res hne h
-    cases cs with
-    | nil => simp only [searchLoop, Except.ok.injEq] at h; subst h; exact hne
-    | cons c cs => simp [searchLoop] at h
-  | succ fuel ih =>
-    intro cs rs vis res hne h
-    cases cs with
-    | nil => simp only [searchLoop, Except.ok.injEq] at h; subst h; exact hne
-    | cons c cs =>
-      simp only [searchLoop] at h
-      split at h
-      · cases h
-      · simp only [Except.ok.injEq] at h; subst h; exact hne
-      · split at h
-        · cases h
-        · split at h
-          · exact ih _ _ _ _ hne h
-          · split at h
-            · cases h
-            · next cs' rs' vis' hscan =>
-              exact ih _ _ _ _ (scanNbrs_rs_ne m s q ef _ _ _ _ _ _ _ hne hscan) h
-
-theorem searchLayer_ne (s : State V) (q : V) (ep : Id) (ef layer : Nat) (res : List (Hit S))
-    (hep : isDeleted s ep = false) (h : searchLayer m s q ep ef layer = .ok res) : res ≠ [] := by
-  simp only [searchLayer, hep] at h
-  simp only [Bool.false_eq_true, if_false] at h
-  split at h
-  · cases h
-  · split at h
-    · cases h
-    · next rs hloop =>
-      simp only [Except.ok.injEq] at h; subst h
-      have := searchLoop_ne m s q ef layer _ _ _ _ rs (by simp) hloop
-      simpa using this
 
 /-! ### the final sort -/
 
@@ -284,39 +228,39 @@ theorem stateLive_ids_nodup (s : State V) : ((stateLive s).map (·.1)).Nodup := 
   rw [this]
   exact (liveIds_nodup s).sublist List.filter_sublist
 
-/-- layer-0 edges of live vertices point to resident vertices -/
+/-- layer-0 edges point to resident vertices -/
 def Resolves0 (s : State V) : Prop :=
-  ∀ u, Live s u → ∀ w ∈ nbrsAt s 0 u, s.nodes.contains w = true
+  ∀ u w, w ∈ nbrsAt s 0 u → s.nodes.contains w = true
 
-/-- In a state whose layer 0 is complete on the live vertices, a bottom-layer search from
-    any live vertex with `ef ≥` the number of live vertices returns exactly the live
-    vertices, each with its distance (as a multiset). -/
-theorem searchLayer0_perm_allHits (s : State V) (hcomp : Complete0 s) (hres : Resolves0 s)
+/-- a vertex from which the bottom-layer search finds every live vertex in one step -/
+def CurrGood (s : State V) (c : Id) : Prop :=
+  s.nodes.contains c = true ∧ ∀ v, Live s v → v ≠ c → v ∈ nbrsAt s 0 c
+
+theorem currGood_of_live {s : State V} (hcomp : Complete0 s) {c : Id} (hc : Live s c) : CurrGood s c :=
+  ⟨hc.1, fun v hv hne => hcomp c v hc hv (Ne.symm hne)⟩
+
+/-- A bottom-layer search from a vertex that has an edge to every live vertex, with
+    `ef ≥` the number of live vertices, returns exactly the live vertices, each with its
+    distance (as a multiset) — whether or not the start vertex is soft-deleted. -/
+theorem searchLayer0_perm_allHits (s : State V) (hres : Resolves0 s)
     (q' : V) (curr : Id) (ef : Nat)
-    (hcurr : Live s curr) (hef : (liveIds s).length ≤ ef) (raw : List (Hit S))
+    (hcurr : CurrGood s curr) (hef : (liveIds s).length ≤ ef) (raw : List (Hit S))
     (h : searchLayer m s q' curr ef 0 = .ok raw) : raw.Perm (allHits m s q') := by
   obtain ⟨hs1, hs2⟩ := searchLayer_sound m s q' ef 0 curr raw h
-  -- everything reachable is live
-  have hRlive : ∀ v, RL s 0 curr v → Live s v := by
+  -- everything reachable is resident
+  have hRres : ∀ v, RL s 0 curr v → s.nodes.contains v = true := by
     intro v hv
     induction hv with
-    | refl => exact hcurr
-    | step _ hw ih =>
-      simp only [liveSuccAt] at hw
-      split at hw
-      · cases hw
-      · simp only [List.mem_filter] at hw
-        exact ⟨hres _ ih _ hw.1, by simpa using hw.2⟩
-  -- every live vertex is reachable (one step from `curr`)
+    | refl => exact hcurr.1
+    | step _ hw _ => exact hres _ _ hw
+  -- every live vertex is reachable (at most one step from `curr`)
   have hliveR : ∀ v, Live s v → RL s 0 curr v := by
     intro v hv
-    by_cases hvc : curr = v
+    by_cases hvc : v = curr
     · subst hvc; exact Reach.refl
-    · refine Reach.step Reach.refl ?_
-      simp only [liveSuccAt, hcurr.2, Bool.false_eq_true, if_false, List.mem_filter]
-      exact ⟨hcomp curr v hcurr hv hvc, by simp [hv.2]⟩
+    · exact Reach.step Reach.refl (hcurr.2 v hv hvc)
   have hall := searchLayer_complete m s q' ef 0 curr (liveIds s)
-    (fun v hv => mem_liveIds.2 (hRlive v hv)) hef hcurr.2 raw h
+    (fun v hv hvd => mem_liveIds.2 ⟨hRres v hv, hvd⟩) hef raw h
   have hnd1 : raw.Nodup := List.Nodup.of_map _ hs2
   have hnd2 : (allHits m s q').Nodup := by
     refine List.Nodup.of_map (·.id) ?_
@@ -334,32 +278,37 @@ theorem searchLayer0_perm_allHits (s : State V) (hcomp : Complete0 s) (hres : Re
     cases hit; simp_all
   · rintro ⟨⟨i, v⟩, hp, rfl⟩
     obtain ⟨hl, n, hn, rfl⟩ := mem_stateLive.1 hp
-    obtain ⟨hit, hh, hid⟩ := List.mem_map.1 (hall i (hliveR i hl))
+    obtain ⟨hit, hh, hid⟩ := List.mem_map.1 (hall i (hliveR i hl) hl.2)
     obtain ⟨_, _, n', hn', hsc⟩ := hs1 hit hh
     rw [hid, hn] at hn'
     cases hn'
     have : hit = ⟨i, m.dist q' n.vec⟩ := by cases hit; simp_all
     rw [← this]; exact hh
 
-theorem count_ne_zero_of_live {s : State V} {i : Id} (h : Live s i) : s.nodes.count ≠ 0 := by
-  have : i ∈ s.nodes.keys := IdMap.mem_keys.2 h.1
+theorem count_ne_zero_of_res {s : State V} {i : Id} (h : s.nodes.contains i = true) : s.nodes.count ≠ 0 := by
+  have : i ∈ s.nodes.keys := IdMap.mem_keys.2 h
   simp only [IdMap.count]
   intro h0
   rw [List.eq_nil_of_length_eq_zero h0] at this
   cases this
 
+theorem count_ne_zero_of_live {s : State V} {i : Id} (h : Live s i) : s.nodes.count ≠ 0 :=
+  count_ne_zero_of_res h.1
+
 /-- the ef that `searchSingleQuery` uses -/
 def efUsed (s : State V) (efo : Int) : Nat := if efo ≤ 0 then s.efS else efo.toNat
 
-/-- what `searchCands` computes when the entry point is live: a bottom-layer search from
-    some live vertex, then the id restriction and the threshold -/
+/-- what `searchCands` computes: a bottom-layer search from the entry point or from a live
+    vertex (the greedy descent only moves to non-deleted vertices), then the id restriction
+    and the threshold -/
 theorem searchCands_unfold (s : State V) (q q' : V) (thr : S) (F : List Id) (efo : Int)
     (hq : m.dimOf q = s.dim) (hml : s.maxLevel ≠ -1) (hpre : m.pre q = some q')
-    (hentry : Live s s.entry) (c : List (Hit S))
+    (hentry : s.nodes.contains s.entry = true) (c : List (Hit S))
     (h : searchCands m s q thr F efo = .ok (.ok c)) :
-    ∃ curr raw, Live s curr ∧ searchLayer m s q' curr (efUsed s efo) 0 = .ok raw ∧
+    ∃ curr raw, (curr = s.entry ∨ Live s curr) ∧
+      searchLayer m s q' curr (efUsed s efo) 0 = .ok raw ∧
       c = raw.filter fun c => Flat.eligible F c.id && !Flat.thrSkip m.sc thr c.score := by
-  have hcnt := count_ne_zero_of_live hentry
+  have hcnt := count_ne_zero_of_res hentry
   simp only [searchCands, hq, ne_eq, not_true_eq_false, if_false, hpre] at h
   have h0 : (s.nodes.count == 0 || s.maxLevel == -1) = false := by simp [hcnt, hml]
   simp only [h0, Bool.false_eq_true, if_false] at h
@@ -369,19 +318,19 @@ theorem searchCands_unfold (s : State V) (q q' : V) (thr : S) (F : List Id) (efo
     split at h
     · cases h
     · next curr cd hg =>
-      have hcurr : Live s (curr, cd).1 :=
-        greedyDescend_live m s q' _ (s.entry, m.dist q' en.vec) (curr, cd) hentry hg
+      have hcurr := greedyDescend_start_or_live m s q' _ (s.entry, m.dist q' en.vec) (curr, cd) hg
       split at h
       · cases h
       · next raw hraw =>
         simp only [Except.ok.injEq] at h
         exact ⟨curr, raw, hcurr, hraw, h.symm⟩
 
-/-- **State-level exactness.** If the entry point is live, layer 0 is complete on the live
-    vertices and `ef` is at least their number, every completed search returns an exact
-    top-k of the live, eligible, within-threshold vertices. -/
+/-- **State-level exactness.** If layer 0 is complete on the live vertices, the entry point
+    (live or soft-deleted) has an edge to every other live vertex and `ef` is at least the
+    number of live vertices, every completed search returns an exact top-k of the live,
+    eligible, within-threshold vertices. -/
 theorem search_exact_state (ord : m.sc.Ordered) (s : State V)
-    (hcomp : Complete0 s) (hres : Resolves0 s) (hentry : Live s s.entry) (hml : s.maxLevel ≠ -1)
+    (hcomp : Complete0 s) (hres : Resolves0 s) (hentry : CurrGood s s.entry) (hml : s.maxLevel ≠ -1)
     (q q' : V) (k : Int) (thr : S) (F : List Id) (efo : Int)
     (hq : m.dimOf q = s.dim) (hpre : m.pre q = some q')
     (hef : (liveIds s).length ≤ efUsed s efo) (res : List (Hit S))
@@ -394,16 +343,23 @@ theorem search_exact_state (ord : m.sc.Ordered) (s : State V)
   · next results hc =>
     simp only [Except.ok.injEq] at h; subst h
     obtain ⟨curr, raw, hcurr, hraw, rfl⟩ :=
-      searchCands_unfold m s q q' thr F efo hq hml hpre hentry results hc
-    have hperm := searchLayer0_perm_allHits m s hcomp hres q' curr _ hcurr hef raw hraw
+      searchCands_unfold m s q q' thr F efo hq hml hpre hentry.1 results hc
+    have hgood : CurrGood s curr := by
+      rcases hcurr with rfl | hl
+      · exact hentry
+      · exact currGood_of_live hcomp hl
+    have hperm := searchLayer0_perm_allHits m s hres q' curr _ hgood hef raw hraw
     refine IsTopK.of_perm (tail_isTopK m ord k _) ?_
     rw [cands_eq_filter]
     exact hperm.filter _
 
-/-- **State-level non-emptiness.** If the entry point is live, every completed
-    unrestricted search returns at least one hit. -/
+/-- **State-level non-emptiness.** If some live vertex is reachable from the entry point
+    along bottom-layer edges (through any stored vertices), every completed unrestricted
+    search returns at least one hit — whatever `ef`, `k`, and whether or not the entry point
+    itself is soft-deleted. -/
 theorem search_nonempty_state (ord : m.sc.Ordered) (s : State V)
-    (hentry : Live s s.entry) (hml : s.maxLevel ≠ -1)
+    (hentry : s.nodes.contains s.entry = true) (hml : s.maxLevel ≠ -1)
+    (v : Id) (hv : Live s v) (hreach : Reach (nbrsAt s 0) s.entry v)
     (q q' : V) (k efo : Int) (hq : m.dimOf q = s.dim) (hpre : m.pre q = some q')
     (res : List (Hit S)) (h : searchSingle m s q k m.sc.zero [] efo = .ok (.ok res)) :
     res ≠ [] := by
@@ -415,7 +371,10 @@ theorem search_nonempty_state (ord : m.sc.Ordered) (s : State V)
     simp only [Except.ok.injEq] at h; subst h
     obtain ⟨curr, raw, hcurr, hraw, rfl⟩ :=
       searchCands_unfold m s q q' m.sc.zero [] efo hq hml hpre hentry results hc
-    have hne := searchLayer_ne m s q' curr _ 0 raw hcurr.2 hraw
+    have hne : raw ≠ [] := by
+      rcases hcurr with rfl | hl
+      · exact searchLayer_ne m s q' _ 0 _ raw hraw v hreach hv.2
+      · exact searchLayer_ne m s q' _ 0 curr raw hraw curr Reach.refl hl.2
     have hfilter : (raw.filter fun c => Flat.eligible [] c.id && !Flat.thrSkip m.sc m.sc.zero c.score) = raw := by
       apply List.filter_eq_self.2
       intro a _
@@ -430,19 +389,14 @@ theorem search_nonempty_state (ord : m.sc.Ordered) (s : State V)
       unfold sanitizeK; split <;> omega
     omega
 
-/-- **State-level reachability.** If the entry point is live and layer 0 is complete on
-    the live vertices, every live vertex is reachable from the entry point (in one step). -/
-theorem reachable_state (s : State V) (hcomp : Complete0 s) (hentry : Live s s.entry) :
-    Reachable s := by
+/-- **State-level reachability.** If the entry point (live or soft-deleted) has an edge to
+    every other live vertex, every live vertex is reachable from it (in at most one step). -/
+theorem reachable_state (s : State V) (hentry : CurrGood s s.entry) : Reachable s := by
   intro i hi
   have hl := mem_liveIds.1 hi
-  refine ⟨hentry.2, ?_⟩
-  rw [liveSucc_eq]
-  by_cases he : s.entry = i
-  · rw [← he]; exact Reach.refl
-  · refine Reach.step Reach.refl ?_
-    simp only [liveSuccAt, hentry.2, Bool.false_eq_true, if_false, List.mem_filter]
-    exact ⟨hcomp _ _ hentry hl he, by simp [hl.2]⟩
+  by_cases he : i = s.entry
+  · rw [he]; exact Reach.refl
+  · exact Reach.step Reach.refl (hentry.2 i hl he)
 
 end
 
@@ -451,15 +405,27 @@ end
 theorem liveB_iff {s : State V} {i : Id} : liveB s i = true ↔ Live s i := by
   simp [liveB, Live]
 
-theorem complete0B_spec {s : State V} (h : complete0B s = true) : Complete0 s ∧ Resolves0 s := by
+theorem complete0B_spec {s : State V} (h : complete0B s = true) (hent : s.nodes.contains s.entry = true) :
+    Complete0 s ∧ Resolves0 s ∧ CurrGood s s.entry := by
   simp only [complete0B, List.all_eq_true, Bool.and_eq_true, Bool.or_eq_true, beq_iff_eq,
     List.contains_eq_mem, decide_eq_true_eq] at h
-  constructor
+  obtain ⟨⟨h1, h2⟩, h3⟩ := h
+  refine ⟨?_, ?_, hent, ?_⟩
   · intro u v hu hv hne
-    rcases (h u (mem_liveIds.2 hu)).1 v (mem_liveIds.2 hv) with h1 | h1
-    · exact absurd h1 hne
-    · exact h1
-  · intro u hu w hw
-    exact (h u (mem_liveIds.2 hu)).2 w hw
+    rcases h1 u (mem_liveIds.2 hu) v (mem_liveIds.2 hv) with h | h
+    · exact absurd h hne
+    · exact h
+  · intro u w hw
+    by_cases hu : s.nodes.contains u = true
+    · exact h2 u (IdMap.mem_keys.2 hu) w hw
+    · have : s.nodes.get? u = none := by
+        cases hg : s.nodes.get? u with
+        | none => rfl
+        | some n => exact absurd (IdMap.contains_iff.2 ⟨n, hg⟩) hu
+      simp [nbrsAt, this] at hw
+  · intro v hv hne
+    rcases h3 v (mem_liveIds.2 hv) with h | h
+    · exact absurd h hne
+    · exact h
 
 end Comet.HNSW
